@@ -31,7 +31,7 @@ def strategy_(draw):
         m["intg"] = "rk"
     A = [[draw(st.sampled_from([-1.0, -0.5, 0.0, 0.5])) for _ in range(n)] for _ in range(n)]
     B = [[draw(st.sampled_from([1.0, 0.5, -1.0])) for _ in range(mu)] for _ in range(n)]
-    args = sorted(set(draw(st.lists(st.sampled_from(["pg", "pr", "pw", "xguess", "uguess"]), min_size=1, max_size=5))))
+    args = list(draw(st.permutations(sorted(set(draw(st.lists(st.sampled_from(["pg", "pr", "pw", "xguess", "uguess"]), min_size=1, max_size=5)))))))   # every order of the chosen arguments
     if mcls == "SS":
         args = [a for a in args if a != "xguess"] or ["pg"]
     N = m["N"]
@@ -51,7 +51,10 @@ def nontrivial(case):
 
 
 def classify(case):
-    return ["method:" + case["method"]["cls"], "grid:" + case["method"]["grid"]["cls"]] + ["arg:" + a for a in case["args"]] + ["unlisted:" + a for a in sorted({"pg", "pr", "pw"} - set(case["args"]))]
+    labs = ["method:" + case["method"]["cls"], "grid:" + case["method"]["grid"]["cls"]] + ["arg:" + a for a in case["args"]] + ["unlisted:" + a for a in sorted({"pg", "pr", "pw"} - set(case["args"]))]
+    if "xguess" in case["args"] and case["args"][-1] != "xguess":
+        labs.append("state guess followed by another argument")
+    return labs
 
 
 def abbreviate(case):
